@@ -182,3 +182,19 @@ def extract_closure_body(path, marker):
                 if seen and depth == 0:
                     return lines[i + 1:j], i + 2, j
     raise LostAnchor("unbalanced closure after %r" % marker)
+
+
+def extract_fn_tail(path, scopes, fn_name, start_marker):
+    """Lines of fn `fn_name` (inside `scopes`) from the line containing start_marker up to (not including) the fn's closing
+    brace.  Returns (lines, first_line_no, last_line_no)."""
+    with open(path) as f:
+        lines = f.read().split("\n")
+    s, e = 0, len(lines) - 1
+    for sc in scopes:
+        s, e = find_scope(lines, sc, s, e + 1)
+    i = find_fn(lines, fn_name, s, e)
+    a, b = fn_extent(lines, i)
+    hits = [k for k in range(a, b + 1) if start_marker in lines[k]]
+    if len(hits) != 1:
+        raise LostAnchor("tail marker %r: %d matches in fn %s" % (start_marker, len(hits), fn_name))
+    return lines[hits[0]:b], hits[0] + 1, b
